@@ -1,5 +1,5 @@
 @unit cw3flex
-@shim core.rs cw_utils.rs cw3deps.rs cw2.rs std_adapters.rs querier.rs range.rs
+@shim core.rs cw_utils.rs std_more.rs cw3deps.rs cw2.rs std_adapters.rs querier.rs range.rs
 @properties C03 C05 C06 C15 C20
 
 @include inc/cw3_types.vsi
@@ -452,7 +452,7 @@ pub open spec fn close_msgs_ok(msgs: Seq<SubMsg<Empty>>, p: Proposal) -> bool {
 @fn contracts/cw3-flex-multisig/src/contract.rs execute_execute
 @requires
     inv(old(deps.storage).view())
-@ensures C05.execute_only_passed_and_authorised C03
+@ensures C05.execute_only_passed_and_authorised C03 C15
     r is Ok ==> step_execute(old(deps.storage).view(), final(deps.storage).view(), deps.querier.world(), info.sender@, &env.block, proposal_id)
 @ensures C05.execute_dispatches_exactly C15
     r is Ok ==> execute_msgs_ok(r->Ok_0.messages@, prop_of(old(deps.storage).view(), proposal_id)->Some_0)
@@ -471,7 +471,7 @@ pub open spec fn close_msgs_ok(msgs: Seq<SubMsg<Empty>>, p: Proposal) -> bool {
 @fn contracts/cw3-flex-multisig/src/contract.rs execute_close
 @requires
     inv(old(deps.storage).view())
-@ensures C05.close_only_expired_unpassed C03
+@ensures C05.close_only_expired_unpassed C03 C15
     r is Ok ==> step_close(old(deps.storage).view(), final(deps.storage).view(), &env.block, proposal_id)
 @ensures C15.close_refund_iff_enabled C05
     r is Ok ==> close_msgs_ok(r->Ok_0.messages@, prop_of(old(deps.storage).view(), proposal_id)->Some_0)
@@ -732,4 +732,42 @@ pub proof fn lemma_listed_wf(s: Raw)
     ensures res.voter@ == __p2_0.0@ && res.proposal_id == proposal_id && res.vote == __p2_0.1.vote && res.weight == __p2_0.1.weight
 @prefix
     broadcast use string_conv, cw3_axioms;
+@end
+
+// ===================================================================== the query entry point routes every message to its query function
+@enum contracts/cw3-flex-multisig/src/msg.rs QueryMsg
+@struct packages/cw3/src/query.rs VoterListResponse
+@struct packages/cw3/src/query.rs VoterDetail
+impl JsonT for ThresholdResponse { uninterp spec fn json(self) -> Seq<u8>; uninterp spec fn unjson(b: Seq<u8>) -> Option<Self>; }
+impl JsonT for ProposalResponse<Empty> { uninterp spec fn json(self) -> Seq<u8>; uninterp spec fn unjson(b: Seq<u8>) -> Option<Self>; }
+impl JsonT for VoteResponse { uninterp spec fn json(self) -> Seq<u8>; uninterp spec fn unjson(b: Seq<u8>) -> Option<Self>; }
+impl JsonT for VoterResponse { uninterp spec fn json(self) -> Seq<u8>; uninterp spec fn unjson(b: Seq<u8>) -> Option<Self>; }
+impl JsonT for ProposalListResponse<Empty> { uninterp spec fn json(self) -> Seq<u8>; uninterp spec fn unjson(b: Seq<u8>) -> Option<Self>; }
+impl JsonT for VoteListResponse { uninterp spec fn json(self) -> Seq<u8>; uninterp spec fn unjson(b: Seq<u8>) -> Option<Self>; }
+impl JsonT for VoterListResponse { uninterp spec fn json(self) -> Seq<u8>; uninterp spec fn unjson(b: Seq<u8>) -> Option<Self>; }
+impl JsonT for Config { uninterp spec fn json(self) -> Seq<u8>; uninterp spec fn unjson(b: Seq<u8>) -> Option<Self>; }
+// list_voters only forwards the group contract's own member listing (declaration only, nothing assumed about it)
+@fn contracts/cw3-flex-multisig/src/contract.rs list_voters [assume]
+@end
+@fn contracts/cw3-flex-multisig/src/contract.rs query_config
+@ensures C05.query_config
+    r is Ok ==> Some(r->Ok_0) == cfg_of(deps.storage.view())
+@prefix
+    broadcast use cw3_axioms;
+@end
+@fn contracts/cw3-flex-multisig/src/contract.rs query
+@requires
+    inv(deps.storage.view())
+@ensures C03.query_routes C05 C06 C15 C20
+    r is Ok ==> match msg {
+        QueryMsg::Threshold {} => exists|x: ThresholdResponse| r->Ok_0@ == x.json() && call_ensures(query_threshold, (deps,), Ok::<ThresholdResponse, StdError>(x)),
+        QueryMsg::Proposal { proposal_id } => exists|x: ProposalResponse<Empty>| r->Ok_0@ == x.json() && call_ensures(query_proposal, (deps, env, proposal_id), Ok::<ProposalResponse<Empty>, StdError>(x)),
+        QueryMsg::Vote { proposal_id, voter } => exists|x: VoteResponse| r->Ok_0@ == x.json() && call_ensures(query_vote, (deps, proposal_id, voter), Ok::<VoteResponse, StdError>(x)),
+        QueryMsg::ListProposals { start_after, limit } => exists|x: ProposalListResponse<Empty>| r->Ok_0@ == x.json() && call_ensures(list_proposals, (deps, env, start_after, limit), Ok::<ProposalListResponse<Empty>, StdError>(x)),
+        QueryMsg::ReverseProposals { start_before, limit } => exists|x: ProposalListResponse<Empty>| r->Ok_0@ == x.json() && call_ensures(reverse_proposals, (deps, env, start_before, limit), Ok::<ProposalListResponse<Empty>, StdError>(x)),
+        QueryMsg::ListVotes { proposal_id, start_after, limit } => exists|x: VoteListResponse| r->Ok_0@ == x.json() && call_ensures(list_votes, (deps, proposal_id, start_after, limit), Ok::<VoteListResponse, StdError>(x)),
+        QueryMsg::Voter { address } => exists|x: VoterResponse| r->Ok_0@ == x.json() && call_ensures(query_voter, (deps, address), Ok::<VoterResponse, StdError>(x)),
+        QueryMsg::ListVoters { start_after, limit } => exists|x: VoterListResponse| r->Ok_0@ == x.json() && call_ensures(list_voters, (deps, start_after, limit), Ok::<VoterListResponse, StdError>(x)),
+        QueryMsg::Config {} => exists|x: Config| r->Ok_0@ == x.json() && call_ensures(query_config, (deps,), Ok::<Config, StdError>(x)),
+    }
 @end
